@@ -13,20 +13,58 @@ import (
 	"os"
 	"path/filepath"
 	"testing"
+
+	"pgregory.net/rapid"
 )
 
+// fuzzKind drives one of the rapid kinds with Go's coverage-guided fuzzer: the fuzz
+// input is rapid's bit stream, so the structured generator (valid checksums, grammar)
+// stays in place while the fuzzer steers its choices by coverage feedback.
+func fuzzKind[C any](f *testing.F, k *Kind[C]) {
+	f.Fuzz(rapid.MakeFuzz(func(t *rapid.T) {
+		c := k.Gen(t)
+		if err := safeEval(k.Eval, c, &Obs{}); err != nil {
+			var hb harnessBug
+			if errors.As(err, &hb) {
+				t.Skip("harness precondition")
+			}
+			js, _ := json.Marshal(c)
+			dir := filepath.Join(envStr("VERIF_REPLAY_ROOT", filepath.Join(verifRoot, "replays")), k.Prop)
+			os.MkdirAll(dir, 0o755)
+			path := filepath.Join(dir, fmt.Sprintf("%s-fuzz-%016x.json", k.Name, fingerprint(k.Name, js)))
+			doc, _ := json.MarshalIndent(map[string]any{"property": k.Prop, "kind": k.Name, "case": json.RawMessage(js), "message": err.Error()}, "", " ")
+			os.WriteFile(path, doc, 0o644)
+			fmt.Printf("FUZZ-FAILCASE property=%s kind=%s replay=%s\n  %s\n", k.Prop, k.Name, path, firstLine(err.Error()))
+			t.Fatalf("%s", firstLine(err.Error()))
+		}
+	}))
+}
+
+func FuzzC02Decode(f *testing.F)   { fuzzKind(f, kC02) }
+func FuzzC05Hostile(f *testing.F)  { fuzzKind(f, kC05Hostile) }
+func FuzzC06Hostile(f *testing.F)  { fuzzKind(f, kC06Hostile) }
+func FuzzC07BechStr(f *testing.F)  { fuzzKind(f, kC07BechStr) }
+func FuzzC07Check(f *testing.F)    { fuzzKind(f, kC07Check) }
+func FuzzC12Extract(f *testing.F)  { fuzzKind(f, kC12) }
+func FuzzC10FilterTx(f *testing.F) { fuzzKind(f, kC10) }
+func FuzzC19Select(f *testing.F)   { fuzzKind(f, kC19Sel) }
+
 func fuzzFail[C any](t *testing.T, kind string, c C, err error) {
+	fuzzFailProp(t, "C08", kind, c, err)
+}
+
+func fuzzFailProp[C any](t testing.TB, prop, kind string, c C, err error) {
 	var hb harnessBug
 	if errors.As(err, &hb) {
 		t.Skip("harness precondition: " + hb.msg)
 	}
 	js, _ := json.Marshal(c)
-	dir := filepath.Join(envStr("VERIF_REPLAY_ROOT", filepath.Join(verifRoot, "replays")), "C08")
+	dir := filepath.Join(envStr("VERIF_REPLAY_ROOT", filepath.Join(verifRoot, "replays")), prop)
 	os.MkdirAll(dir, 0o755)
 	path := filepath.Join(dir, fmt.Sprintf("%s-fuzz-%016x.json", kind, fingerprint(kind, js)))
-	doc, _ := json.MarshalIndent(map[string]any{"property": "C08", "kind": kind, "case": json.RawMessage(js), "message": err.Error()}, "", " ")
+	doc, _ := json.MarshalIndent(map[string]any{"property": prop, "kind": kind, "case": json.RawMessage(js), "message": err.Error()}, "", " ")
 	os.WriteFile(path, doc, 0o644)
-	fmt.Printf("FUZZ-FAILCASE property=C08 kind=%s replay=%s\n  %s\n", kind, path, firstLine(err.Error()))
+	fmt.Printf("FUZZ-FAILCASE property=%s kind=%s replay=%s\n  %s\n", prop, kind, path, firstLine(err.Error()))
 	t.Fatalf("%s", firstLine(err.Error()))
 }
 
